@@ -352,32 +352,34 @@ class AttributeSet(TypedExpression):
                 return apply_trailing_trivia(set_str, self.after, indent=indent)
             return self.add_trivia(f"{prefix}{{ }}", indent=indent, inline=inline)
 
-        if self.multiline:
-            before_str = format_trivia(self.before, indent=indent)
-            render_values = self.attrpath_order if self.attrpath_order else self.values
-            bindings_str = "\n".join(
-                _render_bindings(render_values, indent=indented, inline=False)
-            )
-            if bindings_str.endswith("\n"):
-                closing_sep = ""
-            else:
-                closing_sep = "\n"
-            indentation = "" if inline else " " * indent
-            set_str = (
-                f"{before_str}{indentation}{prefix}{{"
-                + f"\n{bindings_str}{closing_sep}"
-                + " " * indent
-                + "}"
-            )
-            return apply_trailing_trivia(set_str, self.after, indent=indent)
-        else:
-            render_values = self.attrpath_order if self.attrpath_order else self.values
+        render_values = self.attrpath_order if self.attrpath_order else self.values
+        if not self.multiline:
             bindings_str = " ".join(
                 _render_bindings(render_values, indent=indented, inline=True)
             )
-            return self.add_trivia(
-                f"{prefix}{{ {bindings_str} }}", indent=indent, inline=inline
-            )
+            if "\n" not in bindings_str:
+                return self.add_trivia(
+                    f"{prefix}{{ {bindings_str} }}", indent=indent, inline=inline
+                )
+            # A one-line set cannot hold a value spanning several lines: it
+            # would be read back as a multi-line set and laid out differently.
+
+        before_str = format_trivia(self.before, indent=indent)
+        bindings_str = "\n".join(
+            _render_bindings(render_values, indent=indented, inline=False)
+        )
+        if bindings_str.endswith("\n"):
+            closing_sep = ""
+        else:
+            closing_sep = "\n"
+        indentation = "" if inline else " " * indent
+        set_str = (
+            f"{before_str}{indentation}{prefix}{{"
+            + f"\n{bindings_str}{closing_sep}"
+            + " " * indent
+            + "}"
+        )
+        return apply_trailing_trivia(set_str, self.after, indent=indent)
 
     def __getitem__(self, key: str):
         """Allow dict-style access for manipulating bindings by name."""
